@@ -136,6 +136,31 @@ def iter_proto_trace(tid, kw, seed, limit, calls):
             "gen": abstract_params(kw), "seeds": [seed], "events": events, "kind": "G", "kw": kw}
 
 
+def replay_gen(trace, pid):
+    """--replay for generator traces: the recorded calls are made again on the current tree and judged again."""
+    kw = {k: (tuple(v) if isinstance(v, list) else v) for k, v in trace["kw"].items()}
+    evs = trace["events"]
+    proto = [e for e in evs if e["a"] == "IterProto"]
+    if proto:
+        new = iter_proto_trace(1, kw, trace["seeds"][0], proto[0]["limit"], [{"c": c["c"]} for c in proto[0]["calls"]])
+    elif any(e["a"] == "Iter" for e in evs):
+        new = iter_and_coverage_trace(1, kw, trace["seeds"][0], 150)
+    else:
+        calls, explicit, seeds = [], [], {}
+        for e in evs:
+            if e["a"] == "NewGen":
+                calls.append({"a": "new", "g": e["g"], "seed": e["seed"]})
+                seeds[e["g"]] = e["seed"]
+            elif e["a"] == "Generate":
+                calls.append({"a": "generate", "g": e["g"]})
+                explicit.append((e.get("nj", 0), e.get("nm", 0)))
+        new = gen_trace(1, kw, calls, seeds, explicit_args=explicit if any(a != (0, 0) for a in explicit) else None)
+    new["owner"] = pid
+    new["tid"] = 1
+    verdicts, _ = tlcio.monitor("Trace_D.tla", "Trace_D.cfg", f"replay-{pid}", [new], workers=1)
+    return verdicts
+
+
 GRID = [
     dict(num_jobs=(2, 4), num_machines=(2, 3), duration_range=(1, 9)),
     dict(num_jobs=3, num_machines=3, duration_range=(5, 10)),
